@@ -85,6 +85,58 @@ def restricted(resp, fpath):
     return c07.canon(nodes, edges)
 
 
+def large_files(run, h, rng, stats):
+    """sources of 64 KiB and more: a large F alone, then next to a larger G that is read first and hundreds of small
+    files in between (so that G is finished long before F is read), then alone again in the same process"""
+    root = C.scratch("c08big")
+    try:
+        def big(name, nmethods):
+            body = "".join("    int %s_m%d(int a, int b) {\n        int r%d = a * %d + b;\n        if (r%d > b) { return r%d - %d; }\n        return helper%d(r%d, \"%s text %d\");\n    }\n\n" %
+                           (name.lower(), i, i, i, i, i, i, i % 7, i, name, i) for i in range(nmethods))
+            return "package big;\n\nclass %s {\n%s}\n" % (name, body)
+        ftext = big("Strings", 420)
+        gtext = big("Messages", 640) + "\nclass MessageIds { int idOf(String s) { return s.length() + 1; } }\n"
+        assert len(ftext) > 66000 and len(gtext) > len(ftext) + 20000
+        os.makedirs(os.path.join(root, "zz"))
+        fpath = os.path.join(root, "zz", "Strings.java")
+        open(fpath, "w").write(ftext)
+        alone = h.call(op="scan", dir=root, graph="lf", timeout=300)
+        if alone.get("outcome") != "ok":
+            run.violation("C08:scan-" + str(alone.get("outcome")), "scan of one %d-byte file ends with %s" % (len(ftext), alone.get("outcome")), dict(bytes=len(ftext)))
+            return
+        ref = restricted(alone, fpath)
+        os.makedirs(os.path.join(root, "aa"))
+        open(os.path.join(root, "aa", "Messages.java"), "w").write(gtext)
+        for i in range(500):
+            d_ = os.path.join(root, "mm", "p%02d" % (i % 13))
+            os.makedirs(d_, exist_ok=True)
+            open(os.path.join(d_, "S%d.java" % i), "w").write("class S%d { int v%d; int get%d() { return v%d + %d; } }\n" % (i, i, i, i, i))
+        for rnd in range(2):
+            both = h.call(op="scan", dir=root, graph="lf", timeout=300)
+            run.count(("large-files", rnd))
+            stats["large_file_scans"] += 1
+            if both.get("outcome") != "ok":
+                run.violation("C08:scan-" + str(both.get("outcome")), "scan of a project with sources of %d and %d bytes ends with %s" % (len(ftext), len(gtext), both.get("outcome")), dict())
+                return
+            got = restricted(both, fpath)
+            if got != ref:
+                extra = [json.loads(got[0][i]) for i in list(set(got[0]) - set(ref[0]))[:3]]
+                miss = [json.loads(ref[0][i]) for i in list(set(ref[0]) - set(got[0]))[:3]]
+                run.violation("C08:context-changes-file-report", "next to a larger source that is read first (and 500 small ones) a %d-byte file is reported with %d other entities and without %d of its own" %
+                              (len(ftext), len(set(got[0]) - set(ref[0])), len(set(ref[0]) - set(got[0]))),
+                              dict(context="large-siblings", F_bytes=len(ftext), G_bytes=len(gtext), added=extra, hidden=miss, generator="checks/c08.py large_files"))
+                return
+        # and alone again, in the same process
+        shutil.rmtree(os.path.join(root, "aa"))
+        shutil.rmtree(os.path.join(root, "mm"))
+        again = h.call(op="scan", dir=root, graph="lf", timeout=300)
+        if again.get("outcome") == "ok" and restricted(again, fpath) != ref:
+            run.violation("C08:context-changes-file-report", "a %d-byte file scanned alone after a scan of a larger project in the same process is reported differently" % len(ftext),
+                          dict(context="large-siblings-earlier-scan", F_bytes=len(ftext), G_bytes=len(gtext), generator="checks/c08.py large_files"))
+    finally:
+        shutil.rmtree(root, ignore_errors=True)
+
+
 def path_suffix_collision(run, h, stats):
     """The recorded finding C08:path-suffix-collision, reproduced on purpose: identities of expression entities are
     SHA-256(kind ++ text ++ absolute path) without a separator, so `a/b` in <root>/<root>/X.java and `a/b<root>` in
@@ -139,6 +191,7 @@ def run(run):
     have_setpriv = shutil.which("setpriv") is not None
     try:
         path_suffix_collision(run, h, stats)
+        large_files(run, h, rng, stats)
         for case in range(4 if quick else 30):
             root = C.scratch("c08")
             os.chmod(root, 0o755)
